@@ -40,7 +40,7 @@ What is modelled, and how
   failures, the backlog counters.  `byteCompare` is `true` (how `lib/common/src/writer/init.c` configures the
   processor).
 * `Err.internal`: the worked fragment block that reaches `process_completed_block` differs from what
-  `FragDedup.blockWritten` says is stored.  The two are computed from the same bytes by the same rule
+  `FragDedup.blockWritten` says is stored (other bytes, other compressed bit, or marked sparse).  The two are computed from the same bytes by the same rule
   (`processBlock` vs. `blockWritten`); the exit exists so that the link theorems need no lemma about closed
   blocks never changing — on every run of the check the model never takes it.
 -/
@@ -61,6 +61,7 @@ def blkFlagInternal : Nat := 0x10000000
 def clearFlag (flags c : Nat) : Nat := flags &&& (0xFFFFFFFF ^^^ c)
 
 inductive Err where
+  | unsupported                      -- SQFS_ERROR_UNSUPPORTED: `begin_file` with flags outside `SQFS_BLK_USER_SETTABLE_FLAGS`
   | badEvent                         -- the event is not possible in this state (see the header)
   | frag (e : FragDedup.Err)         -- `process_completed_fragment` failed
   | writer (e : BlockWriter.Err)     -- `write_data_block` failed
@@ -208,10 +209,10 @@ def completeBlock (codec : Codec) (s : State) (b : Blk) : Except Err (State × O
       | .ok fd' =>
         match fd'.blocks[b.index]? with
         | some ⟨_, .written stored cmp, _⟩ =>
-          if stored = b.data ∧ cmp = hasFlag b.flags blkIsCompressed then
+          if stored = b.data ∧ cmp = hasFlag b.flags blkIsCompressed ∧ hasFlag b.flags blkIsSparse = false then
             let s2 : State := { s1 with fd := fd', fevs := s.fevs ++ [.written b.index], fres := s.fres ++ [none] }
             -- backend.c:98-111: `sqfs_frag_table_set(tbl, index, location, size | raw-bit)`
-            if !hasFlag b.flags blkIsSparse && b.data.length != 0 then
+            if b.data.length != 0 then
               .ok ({ s2 with fragTbl := s2.fragTbl.set b.index (loc, BlockWriter.mkWord b.data.length b.flags) }, out)
             else .ok (s2, out)
           else .error .internal
@@ -220,8 +221,10 @@ def completeBlock (codec : Codec) (s : State) (b : Blk) : Except Err (State × O
 
 def step (codec : Codec) (h : Bytes → UInt32) (s : State) : Ev → Except Err (State × Out)
   | .file uflags data =>
-    let bs := fileBlocks s.B uflags data
-    .ok ({ s with pending := s.pending ++ bs }, .blocks bs.length)
+    if uflags &&& blkUserSettable != uflags then .error .unsupported        -- frontend.c:91
+    else
+      let bs := fileBlocks s.B uflags data
+      .ok ({ s with pending := s.pending ++ bs }, .blocks bs.length)
   | .submit =>
     match s.pending with
     | [] => .error .badEvent
